@@ -37,7 +37,7 @@ class C17(PropBase):
 
     def generate(self, seed, tier, idx):
         rng = Rng(seed)
-        proj = gen.gen_project(rng, n_units=rng.randint(2, 5), inline=0.35, headers=0.9, wp=rng.chance(0.3), cfg_blocks=0.4, max_atoms=3)
+        proj = gen.gen_project(rng, corpus=0.25, n_units=rng.randint(2, 5), inline=0.35, headers=0.9, wp=rng.chance(0.3), cfg_blocks=0.4, max_atoms=3)
         tree, units, langs = proj["tree"], proj["units"], proj["langs"]
         n = 900
         # same-named macro in two units, suppressed by name in one of them
